@@ -150,6 +150,12 @@ def build(shape, tok):
         hdr[2] = b"Subject: nul \x00 inside " + t.encode()
         hdr[0] = b'From: "n\x00ul" <a\x00@example.org>'
         hdr.append(b"In-Reply-To: <x\x00y@example.org>")
+    elif shape == "mp-no-boundary":
+        # declared multipart whose body never shows the boundary (the email package keeps it as one raw string), with
+        # lines that begin with a dot
+        hdr.append(b"MIME-Version: 1.0")
+        hdr.append(b"Content-Type: multipart/mixed; boundary=XYZ")
+        body = [b"no boundary here " + t.encode(), b".", b".hidden " + t.encode(), b"last"]
     elif shape == "huge-line":
         # one body line longer than asyncio's default stream limit (64 KiB)
         body = [b"before " + t.encode(), b"H" * 70000 + t.encode(), b".after " + t.encode()]
